@@ -23,7 +23,7 @@ ASSUMPTIONS = ["the decoders in refcodec follow the Modbus specification (big-en
 MUST = ["tcp_session_dropped_between_requests", "contract_eval_create_modbus_rtu_request", "contract_eval_create_modbus_tcp_request",
         "contract_eval_create_modbus_rtu_multi_request", "contract_eval_create_modbus_tcp_multi_request",
         "txid_wraps", "negative_values", "aa55_negative_values", "wire_ops_matched", "wire_retransmissions",
-        "classes_constructed"]
+        "classes_constructed", "protocol_object_commands"]
 EXHAUSTIVE = {"quick": False, "thorough": False}
 
 
@@ -125,6 +125,26 @@ def constructors(spec, part):
                 for count in (1, 2, 125, rnd.randrange(1, 126)):
                     chk_modbus(g, part, framing, "read", comm, rnd.randrange(65536), count)
                 part.see(f"{framing}|comm|{comm}")
+                # the commands the transport objects build for their configured comm address (0 is a configurable address too)
+                pcls = g.protocol.UdpInverterProtocol if framing == "rtu" else g.protocol.TcpInverterProtocol
+                proto = pcls("inv", 8899 if framing == "rtu" else 502, comm, 1, 1)
+                reg, val, data = rnd.randrange(65536), rnd.randrange(-32768, 32768), bytes(rnd.randrange(256) for _ in range(2 * rnd.randrange(1, 5)))
+                for kind, cmd, want in (("read", proto.read_command(reg, 3), {"count": 3}), ("write", proto.write_command(reg, val), {"value": val}),
+                                        ("multi", proto.write_multi_command(reg, data), {"data": data})):
+                    part.evaluations += 1
+                    case = {"protocol_object": True, "framing": framing, "comm": comm, "kind": kind}
+                    try:
+                        d = (rc.parse_rtu_request if framing == "rtu" else rc.parse_tcp_request)(cmd.request_bytes())
+                    except rc.BadFrame as b:
+                        bad(part, framing, "undecodable-request", f"{pcls.__name__}(comm {comm}).{kind}: {b}", case)
+                        continue
+                    want = dict(want, kind=kind, comm=comm, reg=reg)
+                    diff = {k: (d.get(k), v) for k, v in want.items() if d.get(k) != v}
+                    if diff:
+                        bad(part, framing, "request-carries-wrong-arguments",
+                            f"{pcls.__name__} configured with comm address {comm}: {kind} command decodes to {diff} (decoded, intended)", case)
+                    else:
+                        part.count("protocol_object_commands")
             for count in range(1, 126):
                 chk_modbus(g, part, framing, "read", 0xF7, rnd.randrange(65536), count)
                 part.see(f"{framing}|count|{count}")
@@ -301,6 +321,12 @@ def replay(case):
         txid_history({"n": case["n"] + 10}, part)
     elif case.get("wire"):
         wire_ops({"seed": case["seed"], "n": case["i"] + 1}, part)
+    elif case.get("protocol_object"):
+        pcls = g.protocol.UdpInverterProtocol if case["framing"] == "rtu" else g.protocol.TcpInverterProtocol
+        fr = pcls("inv", 8899, case["comm"], 1, 1).read_command(100, 3).request_bytes()
+        d = (rc.parse_rtu_request if case["framing"] == "rtu" else rc.parse_tcp_request)(fr)
+        if d["comm"] != case["comm"]:
+            part.violate(f"C03/{case['framing']}/request-carries-wrong-arguments", f"configured comm {case['comm']}, on the wire {d['comm']}", case)
     elif case.get("framing") == "aa55":
         v = case["val"]
         chk_aa55(g, part, case["kind"], case["reg"], bytes.fromhex(v) if (case["kind"] == "multi") else v)
